@@ -236,7 +236,16 @@ impl Transaction {
         latest_block_id: u64,
         genesis_period: u64,
     ) -> Result<Transaction, Error> {
-        let total_payment: Currency = payments.iter().sum();
+        let total_payment: Currency = match payments
+            .iter()
+            .try_fold(0 as Currency, |sum, payment| sum.checked_add(*payment))
+        {
+            Some(total) => total,
+            None => {
+                error!("sum of the payments does not fit into the currency type");
+                return Err(Error::from(ErrorKind::InvalidInput));
+            }
+        };
         trace!(
             "generating transaction : payments = {:?}, fee = {:?}",
             total_payment,
@@ -254,7 +263,13 @@ impl Transaction {
             with_fee = 0;
         }
 
-        let total_requested = total_payment + with_fee;
+        let total_requested = match total_payment.checked_add(with_fee) {
+            Some(total) => total,
+            None => {
+                error!("payments plus fee do not fit into the currency type");
+                return Err(Error::from(ErrorKind::InvalidInput));
+            }
+        };
         trace!(
             "in generate transaction. available: {} and payment: {} and fee: {}",
             available_balance,
